@@ -18,7 +18,7 @@ const OPS: &[&str] = &["array_int", "array_float", "array_bool", "array_obj",
                        "vec_fill", "vec_fill_float", "vec_fill_bool", "vec_fill_obj",
                        "manual_alloc", "manual_reuse", "bytes_alloc",
                        "string_repeat", "string_repeat_mb", "pad_left", "pad_right", "pad_left_mb", "pad_right_mb",
-                       "replace_sq", "join_sq", "str_literal", "churn", "churn_mix", "churn_over",
+                       "replace_sq", "join_sq", "str_literal", "churn", "churn_mix", "churn_over", "bytes_many", "bytes_clone", "bytes_resize", "bytes_cycle", "bytes_from_string",
                        "concat_double", "vec_new_lit", "closures"];
 
 /// (prelude, operation input).  The operation input is the same text for every size: the size is the
@@ -59,6 +59,13 @@ fn program(op: &str, n: i128, limit: u64) -> Option<(String, String)> {
         "pad_right_mb" => "let s = sx.pad_right(n, pc)\nused = s.len()\nused\n",
         "manual_alloc" => "let p = alloc(n)\nused = p\nused\n",
         "bytes_alloc" => "needs std.bytes\nlet b = bytes.alloc(n)\nused = bytes.size(b)\nused\n",
+        // byte buffers are data the program holds: n buffers of 64 KiB kept; a buffer and two clones; a small buffer resized to n;
+        // alloc / free n times (nothing may accumulate); two buffers made from a string of 16 n bytes
+        "bytes_many" => "needs std.bytes\nlet mut i = 0\nlet mut t = 0\nwhile i < n {\n  let h = bytes.alloc(65536)\n  t = t + bytes.size(h)\n  i = i + 1\n}\nused = t\nused\n",
+        "bytes_clone" => "needs std.bytes\nlet b = bytes.alloc(n)\nlet c = bytes.clone(b)\nlet d = bytes.clone(c)\nused = bytes.size(b) + bytes.size(c) + bytes.size(d)\nused\n",
+        "bytes_resize" => "needs std.bytes\nlet b = bytes.alloc(1000)\nbytes.resize(b, n)\nused = bytes.size(b)\nused\n",
+        "bytes_cycle" => "needs std.bytes\nlet mut i = 0\nwhile i < n {\n  let h = bytes.alloc(65536)\n  bytes.free(h)\n  i = i + 1\n}\nused = i\nused\n",
+        "bytes_from_string" => "needs std.bytes\nlet s = sx.repeat(n)\nlet b = bytes.from_string(s)\nlet c = bytes.from_string(s)\nused = bytes.size(b) + bytes.size(c)\nused\n",
         "string_repeat" => "let s = sx.repeat(n)\nused = s.len()\nused\n",
         "pad_left" => "let s = sx.pad_left(n, \" \")\nused = s.len()\nused\n",
         "pad_right" => "let s = sx.pad_right(n, \" \")\nused = s.len()\nused\n",
@@ -164,6 +171,9 @@ fn child() {
         (0..h.verif_slot_count()).filter_map(|i| h.get(aelys_bytecode::object::GcRef::new(i)))
             .map(|o| aelys_bytecode::Heap::estimate_object_size(o) as u64).sum()
     }
+    // byte buffers the VM holds (resources), and the manual counter on its own
+    let byt: u64 = (0..4096usize).filter_map(|h| match vm.get_resource(h) { Some(aelys_runtime::Resource::ByteBuffer(b)) => Some(b.data.len() as u64), _ => None }).sum();
+    let man1 = vm.manual_heap().bytes_allocated() as u64;
     let (sum1, bytes1) = (heap_sum(&vm), vm.heap().bytes_allocated() as u64);
     vm.collect();
     let (sum2, bytes2) = (heap_sum(&vm), vm.heap().bytes_allocated() as u64);
@@ -187,7 +197,7 @@ fn child() {
             if k == 2 { cks.push(format!("{}", v)); } else if k == 3 { cks.push(format!("{}!", v)); } }
     }
     let ev = format!("EV:{}:{}:{}:{}:{}:{}:{}:{}:CK={}", nhost, maxhost, uncovered, first_unc, nck, nfail, host_after_fail, LOG_N.load(Ordering::SeqCst), cks.join(","));
-    let ev = format!("{}:ACC={}/{}/{}/{}", ev, sum1, bytes1, sum2, bytes2);
+    let ev = format!("{}:ACC={}/{}/{}/{}:BYT={}/{}", ev, sum1, bytes1, sum2, bytes2, byt, man1);
     let kind = match r.class.as_str() {
         "ok" => 0, "runtime:OutOfMemory" => 1, "runtime:InvalidAllocationSize" => 2, "runtime:TypeError" => 3,
         "panic" => 5, "budget" => 7, _ => 9,
@@ -257,6 +267,15 @@ fn sizes_for(op: &str, limit: u64, rng: &mut Rng, random: bool) -> Vec<i128> {
     if op.starts_with("churn") {
         // about 292 bytes of garbage per iteration: the collector runs every ~3 500 iterations at the 1 MiB threshold
         return if random { vec![rng.range_i64(0, 60_000) as i128] } else { vec![-1, 0, 1, 2, 100, 3000, 4000, 10_000, 40_000, 100_000] };
+    }
+    if op == "bytes_many" || op == "bytes_cycle" {
+        let q = l / 65536;
+        return if random { vec![rng.range_i64(0, (2 * q + 8) as i64) as i128] } else { vec![-1, 0, 1, 2, q / 2, q - 2, q - 1, q, q + 1, 2 * q, 200] };
+    }
+    if op == "bytes_clone" || op == "bytes_resize" || op == "bytes_from_string" {
+        let u: i128 = if op == "bytes_from_string" { 16 } else { 1 };
+        return if random { vec![rng.range_i64(1, (l / u + 1000) as i64) as i128] }
+               else { vec![1, 2, 1000, l / u / 4, l / u / 3 - 20_000 / u, l / u / 3 + 20_000 / u, l / u / 2, l / u - 200_000 / u, l / u, 2 * l / u, 100_000_000 / u] };
     }
     if op == "str_literal" {
         return if random { vec![rng.range_i64(0, (l + 2000) as i64) as i128] } else { vec![0, 1, 1000, l / 2, l - 100_000, l - 6000, l - 4000, l, l + 1000] };
@@ -382,7 +401,8 @@ fn coq_op(op: &str) -> String {
         "vec_reserve" | "vec_reserve_float" | "vec_reserve_obj" => "OVecReserve 8".into(), "vec_reserve_bool" => "OVecReserve 1".into(),
         "vec_fill" | "vec_fill_float" | "vec_fill_obj" => "OVecFill 8".into(), "vec_fill_bool" => "OVecFill 1".into(),
         "manual_alloc" => "OManual".into(), "manual_reuse" => "OManualReuse".into(),
-        "bytes_alloc" => "OBytes".into(), "string_repeat" => "ORepeat 16".into(), "string_repeat_mb" => "ORepeat 6".into(),
+        "bytes_alloc" => "OBytes".into(), "bytes_many" => "OBytesMany 65536".into(), "bytes_clone" => "OBytesClone".into(), "bytes_resize" => "OBytesResize 1000".into(),
+        "bytes_cycle" => "OBytesCycle 65536".into(), "string_repeat" => "ORepeat 16".into(), "string_repeat_mb" => "ORepeat 6".into(),
         "pad_left" | "pad_right" => "OPad 16 16 1".into(), "pad_left_mb" | "pad_right_mb" => "OPad 16 16 3".into(),
         "str_literal" => "OLiteral".into(), "churn" => "OChurn".into(), "churn_mix" => "OChurnMix".into(), "churn_over" => "OChurnOver".into(),
         "replace_sq" => "OProductSq 1".into(), "join_sq" => "OProductSq 2".into(),
